@@ -16,6 +16,7 @@ META = {
                    " R12.5 the frame size packed into a function value counts every defined name. R12.6 names are looked up only in the current function's context and the global one. R12.7 the number of call frames is bounded by a test with an error edge. R12.8 the name lookup answers from the scope structure as it is now (a cache of answers is brought up to date when a function context is entered or left).",
     'not_decided': ['independence of activations as a run-time fact; results of deep recursion'],
 }
+META['explanation'] += ' R12.3 also: a function declared inside a function is a variable of that activation (its name is defined in the current context, not looked up).'
 
 
 def run(ctx, rep):
